@@ -251,6 +251,36 @@ def externals(run, rule, F):
     return n
 
 
+def address_independence(run, rule, F):
+    """C17.e: no value computed by FFSM2 depends on where objects live: no pointer<->integer conversion, no relational comparison
+    or subtraction of pointers. (Equality tests of a pointer against null -- the logger slot -- are address-independent.) One
+    obligation per function that has a pointer-typed operation at all, plus one per unit for the scan itself."""
+    bad_kinds = ('PointerToIntegral', 'IntegralToPointer')
+    n_fn = 0
+    for fn in F.fns:
+        hits = []
+        ptr_ops = 0
+        for e in ir.all_exprs(fn):
+            if e['k'] == 'cast' and e.get('kind') in bad_kinds:
+                hits.append((fn.pat, 'cast %s: %s' % (e.get('kind'), ir.pp(e)[:80])))
+            elif e['k'] == 'bin' and e.get('ptr'):
+                ptr_ops += 1
+                if e['op'] in ('<', '>', '<=', '>=', '-'):
+                    hits.append((fn.pat, 'pointer %s: %s' % (e['op'], ir.pp(e)[:80])))
+                elif e['op'] in ('==', '!='):
+                    # only against a null pointer constant
+                    sides = [ir.strip(e['l']), ir.strip(e['r'])]
+                    if not any(x['k'] == 'null' or ir.const_val(x) == 0 for x in sides):
+                        hits.append((fn.pat, 'pointer identity test: %s' % ir.pp(e)[:80]))
+        if ptr_ops or hits:
+            n_fn += 1
+            run.ob(rule, '%s: pointer-typed operations are null tests only (%d)' % (fn.short, ptr_ops), not hits,
+                   where=hits[0][0] if hits else fn.pat, detail=None if not hits else [h[1] for h in hits[:4]],
+                   key='%s computes a value from an address' % fn.short)
+    run.ob(rule, 'scan of %d functions for address-dependent values [%s]' % (len(F.fns), F.label()), True)
+    return n_fn
+
+
 def payload_layout(run, rule, F):
     """C07.a / C18.b: the byte storage that holds a payload is big enough and suitably aligned for the payload type,
     both inside its record and through the record's own alignment."""
